@@ -82,6 +82,7 @@ pub fn tables() -> Vec<Table> {
 		Table { name: "id column only", header: vec!["data_id"], rows: vec![vec!["x1"], vec!["x2"], vec!["7"]] },
 		Table { name: "zero-padded ids next to the plain number", header: vec!["data_id", "town"], rows: vec![vec!["007", "seven padded"], vec!["042", "forty-two padded"], vec!["9", "nine"], vec!["-08", "minus eight padded"]] },
 		Table { name: "numbers written with many digits (longer than any 64-bit integer text)", header: vec!["data_id", "slope", "big"], rows: vec![vec!["3.500000000000000000000", "-0.00012345678901234567", "12345678901234567890.5"], vec!["2.0000000000000000000000", "0.100000000000000000000000001", "-0.000000000000000000000001"], vec!["x1", "1.000000000000000000000", "000000000000000000000000.5"]] },
+		Table { name: "text with blanks and tabs at its ends, in the middle and in the last column", header: vec!["data_id", "lead", "trail"], rows: vec![vec!["x1", " lead", "Main St. "], vec!["x2", "tab\t", "two  blanks  "], vec!["7", "mid dle", "\ttab first"], vec!["x3", " ", "  "]] },
 		Table { name: "numeric ids written as integers and as decimals", header: vec!["data_id", "label"], rows: vec![vec!["2", "two"], vec!["5.0", "five"], vec!["3.5", "three and a half"], vec!["4.0", "four"], vec!["-6", "minus six"], vec!["7", "seven"]] },
 	]
 }
@@ -196,6 +197,14 @@ pub fn catalogue() -> Vec<(String, Vec<MLayer>)> {
 		],
 	));
 	v.push((
+		"layer a of version 3 with id key, second layer of version 5, third of version 2 (any version number is a valid uint32)".into(),
+		vec![
+			MLayer { version: 3, ..layer("a", &["id", "k"], vec![s("x1"), s("old"), s("x2")], vec![feat(Some(31), &[0, 0, 1, 1], 1, point(1, 1)), feat(Some(32), &[0, 2], 1, point(2, 2))]) },
+			MLayer { version: 5, ..layer("b", &["id"], vec![s("x1")], vec![feat(Some(1), &[0, 0], 1, point(9, 9))]) },
+			layer("c", &["id"], vec![s("x2")], vec![feat(Some(2), &[0, 0], 1, point(8, 8))]),
+		],
+	));
+	v.push((
 		"layer a, id as int64 / sint64 / uint64 of the same number, float and double".into(),
 		vec![layer(
 			"a",
@@ -255,7 +264,7 @@ pub fn catalogue() -> Vec<(String, Vec<MLayer>)> {
 pub fn run(ctx: Arc<Ctx>) {
 	ctx.rule(
 		"catalogue: C10's 12 tiles + tiles around layer 'a' with an id key (ids as string / int64 / sint64 / uint64 / float / double with integral and fractional values, float vs double, unknown geometry type, duplicate keys/values, unused entries, untouched second layer) + all key tables of length <= 3 over {id,k}; \
-		 x 7 data tables (string ids, numeric ids as integers and decimals, zero-padded ids, numbers written with more than 20 digits) x 2^3 options (replace, remove_non_matching, include_id) x layer name {a, absent} x source compression; reference join on the independently decoded form; plus decode -> encode of every catalogue tile through the repository's VectorTile (incl. ids / values / coordinates / string lengths at every border of the varint encoding, and tiles whose length prefixes run through 2^7, 2^14, 2^21); plus the bounded-exhaustive small-layer family (5 key tables x 4 value tables x feature lists with every tag list of <= 2 pairs; all 409) joined on key k under all 16 (options, layer name) configurations; plus data files in every documented CSV layout (quoted cells with separators / doubled quotes / line breaks / non-ASCII text, CRLF, blank lines, missing final line end: 32 layouts) and long tables whose cells of interest are cut at every byte by the 4096 / 8192 byte borders of the reader's buffer. \
+		 x 8 data tables (string ids, numeric ids as integers and decimals, zero-padded ids, numbers written with more than 20 digits, text with blanks and tabs at its ends) x 2^3 options (replace, remove_non_matching, include_id) x layer name {a, absent} x source compression; reference join on the independently decoded form; plus decode -> encode of every catalogue tile through the repository's VectorTile (incl. ids / values / coordinates / string lengths at every border of the varint encoding, and tiles whose length prefixes run through 2^7, 2^14, 2^21); plus the bounded-exhaustive small-layer family (5 key tables x 4 value tables x feature lists with every tag list of <= 2 pairs; all 409) joined on key k under all 16 (options, layer name) configurations; plus data files in every documented CSV layout (quoted cells with separators / doubled quotes / line breaks / non-ASCII text, CRLF, blank lines, missing final line end: 32 layouts) and long tables whose cells of interest are cut at every byte by the 4096 / 8192 byte borders of the reader's buffer. \
 		 non-trivial = (tile, table, options) where the reference join changes at least one feature",
 	);
 	let cat = catalogue();
